@@ -22,7 +22,7 @@ def where(t):
     return "%s:%s" % (norm_file(sp.get("file")), sp.get("line"))
 
 
-def lookup_sites(prog, rep, floor=6):
+def lookup_sites(prog, rep, floor=2):
     """L3: every table lookup has the shape  T.binary_search_by(|e| e[.0].partial_cmp(&cp).unwrap())
     with receiver = the element, argument = the captured code point, and any T[idx] indexes the same
     static with the Ok payload of that search."""
@@ -77,8 +77,9 @@ def lookup_sites(prog, rep, floor=6):
             ret_ok = inner[0] == "call" and inner[1] and inner[1]["path"] == PCMP
         rep.ob("L3-comparator", inst + " result", ret_ok, "closure result is %s; must be partial_cmp(..).unwrap() unchanged (no reverse()/then())" % prov.describe(ret), cbody.where())
         # indexing: any T[idx] in the parent or in closures it creates
-        owners = [b] + [prog.body(d[3]["rv"]["def"]) for dl in defs.defs.values() for d in dl if d[0] == "assign" and d[3]["rv"]["k"] == "aggregate" and d[3]["rv"].get("agg") == "closure"]
-        for ob in owners:
+        closures = [d[3]["rv"] for dl in defs.defs.values() for d in dl if d[0] == "assign" and d[3]["rv"]["k"] == "aggregate" and d[3]["rv"].get("agg") == "closure"]
+        owners = [(b, None)] + [(prog.body(rv["def"]), rv) for rv in closures]
+        for ob, crv in owners:
             if ob is None:
                 continue
             odefs = prov.Defs(ob)
@@ -93,7 +94,15 @@ def lookup_sites(prog, rep, floor=6):
                     if not pl or not any(p["k"] == "index" for p in pl["p"]):
                         continue
                     base = prov.origin(ob, pl["l"], odefs)
-                    same = base[0] == "static" and (tab[0] != "static" or base[1] == tab[1])
+                    if crv is not None and base[0] == "arg" and base[1] == 1 and prov.fields_of(base[2]):
+                        # a capture of the closure: what the parent put into that environment slot
+                        ci = prov.fields_of(base[2])[0]
+                        if ci < len(crv["ops"]):
+                            base = prov.operand_origin(b, crv["ops"][ci], defs)
+                    if tab[0] == "static":
+                        same = base[0] == "static" and base[1] == tab[1]
+                    else:
+                        same = base[0] == tab[0] and base[1] == tab[1] and prov.fields_of(base[2]) == prov.fields_of(tab[2])
                     rep.ob("L3-index", "%s indexes %s" % (ob.id, prov.describe(base)), same, "indexed table differs from the searched table %s" % prov.describe(tab), "%s:%d" % (st["span"]["file"], st["span"]["line"]))
     rep.floor("table lookup sites (binary_search_by)", len(sites), floor)
     return sites
